@@ -40,7 +40,9 @@ SeamDrift(r) == (r.e = "EbProbe" /\ r.mode = "std" /\ r.natt >= 7 /\ r.pk \in {"
          /\ (r.ok => /\ r.np = r.pred_np /\ r.faces = r.pred_faces
                       /\ Len(r.vidx) = r.np /\ Len(r.avidx) = r.np /\ Len(r.pred_vidx) = r.np /\ Len(r.pred_avidx) = r.np
                       /\ \A p \in 1..r.np : /\ (r.pred_vidx[p] # -1 => r.vidx[p] = r.pred_vidx[p])
-                                              /\ (r.pred_avidx[p] # -1 => r.avidx[p] = r.pred_avidx[p])), "EbDecoder attribute seams")
+                                              /\ (r.pred_avidx[p] # -1 => r.avidx[p] = r.pred_avidx[p])
+                      /\ (r.pred_avidx2 # <<>> => /\ Len(r.avidx2) = r.np /\ Len(r.pred_avidx2) = r.np      \* two seamed attributes (EbDecoder!Seamed2)
+                                                   /\ \A p2 \in 1..r.np : r.pred_avidx2[p2] # -1 => r.avidx2[p2] = r.pred_avidx2[p2])), "EbDecoder attribute seams")
 \* attribute decoder headers (EbDecoder!AttHeader / HeaderCase, mode "hd"): accepted exactly when the model accepts, with the model's points and faces
 HdDrift(r) == (r.e = "EbProbe" /\ r.mode = "hd" /\ r.pk \in {"acc", "rej"}) =>
    Drift((r.pk = "acc") = r.ok /\ (r.ok => r.np = r.pred_np /\ r.faces = r.pred_faces), "EbDecoder attribute decoder headers")
